@@ -27,6 +27,10 @@ CONSTANTS
   AgeAtDecision = TRUE
   LoadAtomic = TRUE
   PurgeFences = TRUE
+  SaveUnderLock = TRUE
+  PurgeHoldsShard = TRUE
+  AbsentPurge = FALSE
+  Reapplies = FALSE
   Ghost = TRUE
   GenDepth = 70
 INVARIANT Emit
